@@ -43,23 +43,32 @@ def place_demo(cand, wt):
     txt = open(os.path.join(cand, "demo_cmd.txt")).read()
     txt = re.sub(r"<repo>|\$REPO|/tmp/mut/wt_C\d+", wt, txt)
     files = [f for f in os.listdir(cand) if f not in ("patch.diff", "meta.json", "demo_cmd.txt")]
-    dest = None
+    dirs = []
     for d in re.findall(r"((?:pkg|internal|format|cmd)/[\w/\-.]+)", txt):
         d = d.rstrip("/.")
-        if d.endswith(".go"):
+        if d.endswith(".go") or d.endswith(".sh"):
             d = os.path.dirname(d)
-        if os.path.isdir(os.path.join(wt, d)):
-            dest = d
-            break
+        if os.path.isdir(os.path.join(wt, d)) and d not in dirs:
+            dirs.append(d)
     placed = []
     for f in files:
-        if f.endswith("_test.go") and dest:
+        dest = None
+        if f.endswith("_test.go"):
+            mm = re.search(r"^package\s+(\w+?)(?:_test)?\s*$", open(os.path.join(cand, f)).read(), re.M)
+            pkg = mm.group(1) if mm else None
+            for d in dirs:
+                if os.path.basename(d) == pkg:
+                    dest = d
+                    break
+            if dest is None and dirs:
+                dest = dirs[0]
+        if dest:
             shutil.copy(os.path.join(cand, f), os.path.join(wt, dest, f))
             placed.append(os.path.join(dest, f))
         else:
             shutil.copy(os.path.join(cand, f), os.path.join(wt, f))
             placed.append(f)
-    m = re.search(r"(go test [^\n(`]*)", txt) or re.search(r"((?:sh|bash) [^\n(`]*)", txt)
+    m = re.search(r"(go test [^\n(`]*)", txt) or re.search(r"((?:sh|bash)\s+\S+\.sh[^\n(`]*)", txt)
     cmd = m.group(1).strip() if m else None
     return cmd, placed
 
@@ -94,11 +103,22 @@ def verify(cand, pid):
             except FileNotFoundError:
                 pass
         t = time.time()
-        rc, o = sh("go test -vet=off -count=1 -timeout 25m ./... 2>&1 | grep -v 'no test files'", cwd=wt)
-        res["suite_passes"] = ("FAIL" not in o) and rc == 0
+        rc, o = sh("go test -vet=off -count=1 -timeout 90m ./... 2>&1 | grep -v 'no test files'", cwd=wt, timeout=7200)
+        failed = re.findall(r"^FAIL\s+(\S+)", o, re.M)
+        res["suite_first_run_failed_pkgs"] = failed
+        still = []
+        for pkg in failed:   # timing-sensitive tests (completion) flake on a loaded machine: re-run the package alone, twice
+            ok = False
+            for _ in range(2):
+                rc2, o2 = sh(f"go test -vet=off -count=1 -timeout 60m {pkg}", cwd=wt, timeout=4000)
+                if rc2 == 0:
+                    ok = True
+                    break
+            if not ok:
+                still.append(pkg)
+                res["suite_tail"] = o2[-800:]
+        res["suite_passes"] = not still and "panic:" not in o
         res["suite_s"] = round(time.time() - t)
-        if not res["suite_passes"]:
-            res["suite_tail"] = "\n".join(l for l in o.splitlines() if "FAIL" in l)[:800]
         res["ok"] = all(res.get(k) for k in ("applies", "builds", "demo_passes_unchanged", "demo_fails_with_change", "suite_passes"))
     finally:
         rmwt(wt)
